@@ -22,6 +22,7 @@ var (
 	c08CfgGt4   = c08Cfg{13, 4, 1}
 	c08CfgGt2   = c08Cfg{7, 2, 1}
 	c08CfgGtLo  = c08Cfg{0, 5, 1}
+	c08CfgGt1   = c08Cfg{4, 1, 1}
 )
 
 func c08Emit(g *Gen, kind int, cfg c08Cfg, evs []c08Event, class string) {
@@ -274,8 +275,11 @@ func c08Gen(g *Gen) {
 		}
 	}
 	enum2(nil)
-	for _, cfg := range []c08Cfg{c08CfgGt2, c08CfgGt4} {
+	for _, cfg := range []c08Cfg{c08CfgGt2, c08CfgGt4, c08CfgGt1} {
 		for _, s := range all {
+			if cfg == c08CfgGt1 && len(s) > nmax-1 {
+				continue
+			}
 			c08Emit(g, 0, cfg, c08Split(s, nil), "enum-whole")
 			for c := 1; c < len(s); c++ {
 				c08Emit(g, 0, cfg, c08Split(s, []int{c}), "enum-1cut")
@@ -469,6 +473,102 @@ func c08Gen(g *Gen) {
 		c08Emit(g, 0, cfg, evs, "overflow")
 	}
 
+	// ---------- one long-lived reader: exact repeats, equal lengths, valid/invalid interleaved ----------
+	for i := 0; i < g.Pick(250, 3000); i++ {
+		cfg := []c08Cfg{c08CfgSys, c08CfgGt, c08CfgProd, c08CfgSys3, c08CfgGt4}[r.Intn(5)]
+		base := c08RandomLines(r, cfg, 1, false)
+		other := c08RandomLines(r, cfg, 1, false)
+		if len(other[len(other)-1]) > 0 { // same length as base's last line, other content
+			o := append([]byte{}, base[len(base)-1]...)
+			if len(o) > 0 {
+				o[len(o)-1] ^= 1
+				if o[len(o)-1] == '\n' {
+					o[len(o)-1] = 'z'
+				}
+			}
+			other = append(append([][]byte{}, base[:len(base)-1]...), o)
+		}
+		var evs []c08Event
+		reps := r.Range(3, 12)
+		mode := r.Intn(5)
+		for k := 0; k < reps; k++ {
+			rec := c08Stream(base, true)
+			if mode == 1 && k%2 == 1 {
+				rec = c08Stream(other, true)
+			}
+			if mode == 2 && k%3 == 2 { // a garbage line in between, same length as the record
+				gl := bytes.Repeat([]byte{'g'}, len(rec)-1)
+				rec = append(gl, '\n')
+			}
+			switch r.Intn(4) {
+			case 0: // the whole record in one read
+				evs = append(evs, c08Event{c08Data, rec})
+			case 1: // split at the same place every time
+				c := len(rec) / 2
+				evs = append(evs, c08Event{c08Data, rec[:c]}, c08Event{c08Data, rec[c:]})
+			case 2: // the newline on its own
+				evs = append(evs, c08Event{c08Data, rec[:len(rec)-1]}, c08Event{c08Data, rec[len(rec)-1:]})
+			default: // the newline together with the head of the same record again (next repetition)
+				evs = append(evs, c08Event{c08Data, rec[:1]}, c08Event{c08Data, rec[1:]})
+			}
+			if mode >= 3 && r.Chance(1, 2) {
+				evs = append(evs, c08Event{code: c08Timeout})
+				if r.Chance(1, 3) {
+					evs = append(evs, c08Event{code: c08Timeout})
+				}
+			}
+		}
+		c08Emit(g, 0, cfg, evs, "repeats")
+	}
+
+	// ---------- exact buffer boundaries: occupancy cap-limit-2 .. cap-limit+2 and reads that fill the buffer ----------
+	for i := 0; i < g.Pick(300, 4000); i++ {
+		cfg := []c08Cfg{c08CfgSys, c08CfgGt, c08CfgProd, c08CfgSys3, c08CfgGt4, c08CfgSysLo, c08CfgGtLo}[r.Intn(7)]
+		capacity := cfg.minBuf
+		if 3*cfg.limit > capacity {
+			capacity = 3 * cfg.limit
+		}
+		target := capacity - cfg.limit + r.Range(-2, 2)
+		if r.Chance(1, 5) {
+			target = capacity + r.Range(-2, 2)
+		}
+		// an open record (start line + continuation text, some newlines) of exactly target bytes
+		head := c08RandomLines(r, cfg, 1, false)
+		s := c08Stream(head, true)
+		if r.Chance(1, 4) {
+			s = nil // garbage only
+		}
+		for len(s) < target {
+			ch := "ab c"[r.Intn(4)]
+			if r.Chance(1, 12) {
+				ch = '\n'
+			}
+			s = append(s, ch)
+		}
+		s = s[:maxInt(target, 0)]
+		tail := c08Stream(c08RandomLines(r, cfg, r.Range(1, 2), false), true)
+		nl := []byte{'\n'}
+		if r.Chance(1, 3) {
+			nl = nil
+		}
+		var evs []c08Event
+		switch r.Intn(3) {
+		case 0:
+			evs = []c08Event{{c08Data, s}, {c08Data, append(append([]byte{}, nl...), tail...)}}
+		case 1:
+			evs = []c08Event{{c08Data, s[:len(s)/2]}, {c08Data, s[len(s)/2:]}, {c08Data, nl}, {c08Data, tail}}
+		default:
+			evs = []c08Event{{c08Data, append(append(append([]byte{}, s...), nl...), tail...)}}
+		}
+		if r.Chance(1, 4) {
+			evs = c08WithTicks(r, evs, 1, 2)
+		}
+		c08Emit(g, 0, cfg, evs, "boundary-occupancy")
+	}
+
+	// ---------- kind 3: the real listener over loopback TCP ----------
+	c08GenTCP(g)
+
 	// ---------- API scripts (calls after FlushAll, empty reads, repeated flushes); limit 0 ----------
 	for i := 0; i < g.Pick(200, 3000); i++ {
 		cfg := []c08Cfg{c08CfgGt, c08CfgGt4, c08CfgSys, c08CfgGtLo}[r.Intn(4)]
@@ -507,4 +607,152 @@ func minInt(a, b int) int {
 		return a
 	}
 	return b
+}
+
+func maxInt(a, b int) int {
+	if a > b {
+		return a
+	}
+	return b
+}
+
+func c08EmitTCP(g *Gen, cfg c08Cfg, intervalMs int, frags [][]byte, gaps []int64, class string) {
+	z := []int64{int64(cfg.minBuf), int64(cfg.limit), int64(cfg.tester), int64(intervalMs)}
+	z = append(z, gaps...)
+	if g.Case(3, frags, z) != "" {
+		g.Count(class)
+	}
+}
+
+func c08FragsOf(stream []byte, cuts []int) [][]byte {
+	var fs [][]byte
+	for _, ev := range c08Split(stream, cuts) {
+		fs = append(fs, ev.frag)
+	}
+	return fs
+}
+
+func c08GenTCP(g *Gen) {
+	r := g.R
+	// quick scripts: flush interval 3 s, everything written at once or with 1 ms gaps; any content
+	for i := 0; i < g.Pick(60, 400); i++ {
+		cfg := []c08Cfg{c08CfgSys, c08CfgProd, c08CfgGt, c08CfgSys3}[r.Intn(4)]
+		s := c08Stream(c08RandomLines(r, cfg, r.Range(1, 8), false), r.Chance(4, 5)) // within the limit: overflow would make the records depend on how TCP cuts the reads
+		frags := c08FragsOf(s, c08RandomCuts(r, len(s), r.Range(0, 6)))
+		gaps := make([]int64, len(frags))
+		for k := range gaps {
+			if r.Chance(1, 2) {
+				gaps[k] = 1
+			}
+		}
+		c08EmitTCP(g, cfg, 3000, frags, gaps, "tcp-quick")
+	}
+	// paced scripts: flush interval 6 ms; pauses of 30 ms force timeouts, traffic across several
+	// intervals forces deadline renewals; streams of single-line records cut anywhere
+	for i := 0; i < g.Pick(14, 120); i++ {
+		cfg := []c08Cfg{c08CfgSys, c08CfgProd, c08CfgGt}[r.Intn(3)]
+		var lines [][]byte
+		for k := r.Range(2, 8); k > 0; k-- {
+			if cfg.tester == 0 {
+				lines = append(lines, c08Valid(r, r.PickInt([]int{32, 33, cfg.limit, r.Range(32, cfg.limit)})))
+			} else {
+				lines = append(lines, append([]byte{'>'}, r.Bytes(r.Range(0, cfg.limit-1), []byte("ab>"))...))
+			}
+		}
+		s := c08Stream(lines, true)
+		frags := c08FragsOf(s, c08RandomCuts(r, len(s), r.Range(2, 12)))
+		gaps := make([]int64, len(frags))
+		pauses := 0
+		for k := range gaps {
+			switch r.Intn(4) {
+			case 0:
+				gaps[k] = 1
+			case 1:
+				gaps[k] = 3
+			case 2:
+				if pauses < 3 {
+					gaps[k] = 30
+					pauses++
+				}
+			}
+		}
+		c08EmitTCP(g, cfg, 6, frags, gaps, "tcp-paced-single-line")
+	}
+	// paced, multi-line: every write is one whole valid record with its continuation lines
+	// (large buffer: a read never cuts a write)
+	for i := 0; i < g.Pick(14, 120); i++ {
+		cfg := c08Cfg{8192, 128, 0}
+		if r.Bool() {
+			cfg = c08Cfg{2048, 32, 1}
+		}
+		var frags [][]byte
+		gaps := []int64{}
+		pauses := 0
+		for k := r.Range(2, 7); k > 0; k-- {
+			var lines [][]byte
+			for len(lines) == 0 || len(lines[0]) == 0 {
+				lines = c08RandomLines(r, cfg, 1, false)
+				if !c08RefTester(cfg.tester)(lines[0]) { // leading garbage variant: not for this generator
+					lines = nil
+				}
+			}
+			frags = append(frags, c08Stream(lines, true))
+			gp := int64(r.PickInt([]int{0, 0, 2, 30}))
+			if gp == 30 {
+				if pauses >= 3 {
+					gp = 2
+				}
+				pauses++
+			}
+			gaps = append(gaps, gp)
+		}
+		c08EmitTCP(g, cfg, 6, frags, gaps, "tcp-paced-whole-records")
+	}
+	// a multi-line record split across two writes right after connecting, no pause: the
+	// continuation must stay attached (no flush can be due within the first interval)
+	for i := 0; i < g.Pick(10, 60); i++ {
+		cfg := []c08Cfg{c08CfgSys, c08CfgProd}[r.Intn(2)]
+		rec := c08Stream([][]byte{c08Valid(r, cfg.limit-8), c08Garbage(r, 3), c08Garbage(r, 2)}, true)
+		next := c08Stream([][]byte{c08Valid(r, 33)}, true)
+		cut := r.Range(1, len(rec)-1)
+		frags := [][]byte{rec[:cut], rec[cut:], next}
+		c08EmitTCP(g, cfg, 3000, frags, []int64{int64(r.Range(1, 3)), int64(r.Range(0, 2)), 0}, "tcp-split-multiline")
+	}
+	// multi-line records, one write per line, right after a pause of several flush intervals
+	for i := 0; i < g.Pick(2, 10); i++ {
+		cfg := c08Cfg{8192, 128, 0}
+		frags := [][]byte{c08Stream([][]byte{c08Valid(r, 40)}, true)}
+		for k := 0; k < 8; k++ {
+			frags = append(frags, append(c08Valid(r, r.Range(40, 60)), '\n'), append(c08Garbage(r, r.Range(3, 12)), '\n'), append(c08Garbage(r, r.Range(1, 9)), '\n'))
+		}
+		z := []int64{int64(cfg.minBuf), int64(cfg.limit), int64(cfg.tester), 400, 1300}
+		if g.Case(5, frags, z) != "" {
+			g.Count("tcp-burst")
+		}
+	}
+	// NetConnWrapper alone: (A) every read after more than 2*timeout: always renewed; (B) timeout of
+	// seconds, reads back to back: only the first renews; (C) one slow script with wide margins
+	for i := 0; i < g.Pick(6, 30); i++ {
+		z := []int64{4}
+		for k := r.Range(1, 5); k > 0; k-- {
+			z = append(z, int64(r.Range(12, 16)))
+		}
+		g.Case(4, nil, z)
+		g.Count("wrapper-always-renew")
+	}
+	for i := 0; i < g.Pick(6, 30); i++ {
+		z := []int64{5000}
+		for k := r.Range(1, 8); k > 0; k-- {
+			z = append(z, int64(r.Range(0, 2)))
+		}
+		g.Case(4, nil, z)
+		g.Count("wrapper-no-renew")
+	}
+	g.Case(4, nil, []int64{600, 0, 900, 5, 3})
+	g.Case(4, nil, []int64{0, 0, 3, 0})
+	g.Count("wrapper-mixed")
+	if g.Thorough() {
+		g.Case(4, nil, []int64{1000, 0, 400, 400, 400, 5, 1500, 5, 2300, 400})
+		g.Count("wrapper-mixed")
+	}
 }
